@@ -5,6 +5,62 @@ import ast
 from extract_lib import Unsupported, emit, find_func, parse_module
 
 
+def _is_core_lock(w):
+    return isinstance(w, ast.With) and len(w.items) == 1 and ast.unparse(w.items[0].context_expr) == "self._core.lock"
+
+
+def levels_shape(tree):
+    """Conc/Levels.lean: order of publication in Logger.level(), and whether add() builds the Handler under the
+    core lock under which it registers it."""
+    out = ""
+    fn = find_func(tree, "level", cls="Logger")
+    locks = [w for w in ast.walk(fn) if _is_core_lock(w)]
+    if len(locks) != 1:
+        raise Unsupported("Logger.level: expected exactly one `with self._core.lock:` block, found %d" % len(locks))
+    idx = {}
+    for i, st in enumerate(locks[0].body):
+        src = ast.unparse(st)
+        if isinstance(st, ast.Assign) and len(st.targets) == 1:
+            tgt = ast.unparse(st.targets[0])
+            if tgt in ("self._core.levels_lookup[name]", "self._core.levels_ansi_codes[name]", "self._core.levels[name]"):
+                idx[tgt.split(".")[-1].split("[")[0]] = i
+                continue
+        if isinstance(st, ast.For) and ast.unparse(st.iter) == "self._core.handlers.values()" and \
+                [ast.unparse(b) for b in st.body] == ["%s.update_format(name)" % ast.unparse(st.target)]:
+            idx["loop"] = i
+            continue
+        raise Unsupported("Logger.level: unexpected statement under the lock: %s" % src.splitlines()[0])
+    if set(idx) != {"levels_lookup", "levels_ansi_codes", "levels", "loop"}:
+        raise Unsupported("Logger.level: lock block does not consist of the three table stores and the handler loop: %r" % idx)
+    for node in ast.walk(fn):
+        if isinstance(node, ast.Subscript) and isinstance(node.ctx, ast.Store) and \
+                ast.unparse(node.value) in ("self._core.levels_lookup", "self._core.levels_ansi_codes") and \
+                not any(node in ast.walk(w) for w in locks):
+            raise Unsupported("Logger.level stores into a level table outside the core lock")
+    if not idx["levels_ansi_codes"] < idx["loop"]:
+        raise Unsupported("Logger.level: handlers are updated before levels_ansi_codes holds the new code")
+    out += "/-- `level()` publishes the name in `levels_lookup` before the registered handlers have been updated -/\n"
+    out += "def lookupFirst : Bool := %s\n\n" % ("true" if idx["levels_lookup"] < idx["loop"] else "false")
+    add = find_func(tree, "add", cls="Logger")
+    calls = [n for n in ast.walk(add) if isinstance(n, ast.Call) and ast.unparse(n.func) == "Handler"]
+    if len(calls) != 1:
+        raise Unsupported("Logger.add: expected exactly one Handler(...) call, found %d" % len(calls))
+    kw = {k.arg: ast.unparse(k.value) for k in calls[0].keywords}
+    if kw.get("levels_ansi_codes") != "self._core.levels_ansi_codes":
+        raise Unsupported("Logger.add: Handler(...) is not given the shared levels_ansi_codes table")
+    reg = [w for w in ast.walk(add) if _is_core_lock(w) and
+           any(isinstance(n, ast.Assign) and ast.unparse(n.targets[0]) == "self._core.handlers" for n in ast.walk(w))]
+    if len(reg) != 1:
+        raise Unsupported("Logger.add: registration `self._core.handlers = ...` is not under exactly one core-lock block")
+    inside = any(calls[0] is n for n in ast.walk(reg[0]))
+    elsewhere = any(calls[0] is n for w in ast.walk(add) if _is_core_lock(w) and w is not reg[0] for n in ast.walk(w))
+    if elsewhere:
+        raise Unsupported("Logger.add: Handler(...) is built under a different lock block than the registration")
+    out += "/-- `add()` builds the Handler (snapshot of the known levels) under the lock that registers it -/\n"
+    out += "def lockedConstruct : Bool := %s\n" % ("true" if inside else "false")
+    return out
+
+
 def generate():
     errors = []
     body = "namespace Conc.ShapeGen\n\n"
@@ -50,7 +106,8 @@ def generate():
         if not names or names[0] != "enabled" or names.count("enabled") != 1:
             raise Unsupported("the miss path of _log does not read core.enabled exactly once, first: %r" % (names,))
         body += "/-- the cache-miss path reads `core.enabled` (once) before `core.activation_list` -/\n"
-        body += "def missReadsEnabledFirst : Bool := true\n"
+        body += "def missReadsEnabledFirst : Bool := true\n\n"
+        body += levels_shape(tree)
     except (Unsupported, SyntaxError, KeyError, AttributeError, IndexError) as e:
         errors.append("%s: %s" % (type(e).__name__, e))
     body += "\nend Conc.ShapeGen\n"
